@@ -141,6 +141,49 @@ def run_get_volume(eng, p):
     return "ok"
 
 
+def run_dedup(eng, p):
+    """features.contour.remove_duplicates: consecutive duplicate points of a
+    (circular) contour are removed, nothing else -- in particular the last
+    point of an OPEN contour (mask touching the image border) is kept"""
+    from vf.symnp import SMat
+    CO = "dclab.features.contour"
+    n = p["n"]
+    xs = [eng.int("px%d" % i) for i in range(n)]
+    ys = [eng.int("py%d" % i) for i in range(n)]
+    for v in xs + ys:
+        eng.assume((v >= 0) & (v <= 3))
+    ns = shadow(CO, np=SymNP(), len=len)
+    cont = SMat([[a, b] for a, b in zip(xs, ys)], int)
+    with quiet():
+        out = ns["remove_duplicates"](cont)
+    got = [(r[0], r[1]) for r in (out.rows if hasattr(out, "rows")
+                                  else list(out))]
+    # specification on this path (equalities were decided while executing)
+    pts = list(zip(xs, ys))
+
+    def eqp(a, b):
+        return bool(eng.branch(z3.And(toint(a[0]) == toint(b[0]),
+                                      toint(a[1]) == toint(b[1]))))
+    exp = [pts[0]]
+    for i in range(1, n):
+        if not eqp(pts[i], pts[i - 1]):
+            exp.append(pts[i])
+    if eqp(pts[-1], pts[0]) and len(exp) >= 1:
+        exp = exp[:-1]           # circular: closing duplicate of the start
+    ok = len(got) == len(exp)
+    eng.prove(conj_eq(got, exp) if ok else z3.BoolVal(False),
+              "remove_duplicates == contour without consecutive (circular) "
+              "duplicates", info={"points kept": len(got),
+                                  "expected": len(exp)})
+    return "ok"
+
+
+def conj_eq(a, b):
+    return z3.And([z3.And(toint(p[0]) == toint(q[0]),
+                          toint(p[1]) == toint(q[1]))
+                   for p, q in zip(a, b)] or [z3.BoolVal(True)])
+
+
 # ------------------------------------------------------------- brightness
 class UFs:
     """uninterpreted std / percentile: same pixels -> same symbol"""
@@ -284,7 +327,8 @@ def run_case(name, params):
     eng = Engine(timeout_ms=60000, nra=params["kind"] in (
         "moments", "volume", "crosstalk", "get_volume"))
     fn = {"moments": run_moments, "volume": run_volume, "bright": run_bright,
-          "crosstalk": run_crosstalk, "get_volume": run_get_volume}[
+          "crosstalk": run_crosstalk, "get_volume": run_get_volume,
+          "dedup": run_dedup}[
         params["kind"]]
     eng.explore(lambda e: fn(e, params))
     return eng.stats()
@@ -300,6 +344,8 @@ def cases(tier, seed):
         for law in ("flip", "scale"):
             out.append(("volume n=%d %s" % (n, law),
                         dict(kind="volume", n=n, law=law)))
+    for n in ((2, 3) if tier == "quick" else (2, 3, 4)):
+        out.append(("remove_duplicates n=%d" % n, dict(kind="dedup", n=n)))
     out.append(("get_volume n=3", dict(kind="get_volume", n=3, dup=0)))
     for dup in ((0, 3) if tier == "quick" else (0, 1, 2, 3)):
         out.append(("get_volume n=4 dup=%d" % dup,
@@ -412,6 +458,23 @@ def replay(case, params, v):
                                  % (p["law"], a, m1[a], b, m2[b],
                                     cont.tolist()))
         key = "cont_moments_cv|%s" % p["law"]
+    elif k == "dedup":
+        from dclab.features.contour import remove_duplicates
+        n = p["n"]
+        cont = np.array([[int(vals.get("px%d" % i, 0) or 0),
+                          int(vals.get("py%d" % i, 0) or 0)]
+                         for i in range(n)])
+        got = remove_duplicates(cont).tolist()
+        pts = cont.tolist()
+        exp = [pts[0]] + [pts[i] for i in range(1, n)
+                          if pts[i] != pts[i - 1]]
+        if pts[-1] == pts[0]:
+            exp = exp[:-1]
+        if got != exp:
+            fails.append("remove_duplicates(%r) == %r, expected %r" % (
+                pts, got, exp))
+        key = "remove_duplicates|" + ("open-contour" if pts[-1] != pts[0]
+                                      else "closed-contour")
     elif k == "get_volume":
         n = p["n"]
         gv = real(VO, "get_volume")
